@@ -318,15 +318,17 @@ class Plan:
                 self.rq_del(f)
         else:
             self.ensure(f)
+        p = self.paths[pid]
+        base = mode.replace("b", "")
+        ok = mode in MODES_OK and (base[0] != "r" or p.exists)
+        if self.excl and not ok and self.in_with(f):
+            return self.rq_tell(f)           # would leave the with block on a closed File (known finding)
         fc = 0
         if self.stream[f] is not None:       # reopen closes the previous stream first
             fc = 1
             self.total_close += 1
             self.stream[f] = None
             self.events.add("reopen")
-        p = self.paths[pid]
-        base = mode.replace("b", "")
-        ok = mode in MODES_OK and (base[0] != "r" or p.exists)
         self.sep_since_write = True
         line = "%s %d %d %s" % ("new" if how == "new" else "sopen", f, pid, mode)
         if ok:
@@ -583,9 +585,9 @@ class Plan:
 
     def rq_close(self, f):
         self.ensure(f)
+        if self.excl and (self.stream[f] is None or self.in_with(f)):
+            return self.rq_tell(f)
         if self.stream[f] is None:
-            if self.excl:
-                return self.rq_tell(f)
             return self.closed_step("sclose %d" % f, "sclose", f, {"open": "0"})
         self.stream[f] = None
         self.total_close += 1
@@ -609,8 +611,8 @@ class Plan:
         if len(self.withs) >= 2:
             return self.rq_tell(f)
         self.ensure(f)
-        if self.excl and self.stream[f] is None:
-            return self.rq_tell(f)
+        if self.excl and (self.stream[f] is None or self.in_with(f)):
+            return self.rq_tell(f)           # the block would be left on a closed File (known finding)
         self.add("with %d" % f, "with", f, exp={"h": "self"})
         self.withs.append([f, k + 1])     # +1: the tick() after this request consumes one
 
@@ -664,7 +666,12 @@ def _run_case(ctx, case, tmpdir):
     plan = Plan(case)
     steps = plan.steps
     ex = ctx.executor("ex_file")
-    obs = ex.run("\n".join([steps[0].line + " " + tmpdir] + [s.line for s in steps[1:]]))
+    # a fresh executor every 1500 cases bounds its memory (sanitizer quarantine); the executor never
+    # exits by itself, which would race with the next case being written
+    n = getattr(ex, "vf_cases", 0) + 1
+    fresh = n > 1500
+    ex.vf_cases = 1 if fresh else n
+    obs = ex.run("\n".join([steps[0].line + " " + tmpdir] + [s.line for s in steps[1:]]), fresh=fresh)
     ev = sorted(plan.events)
     nontrivial = bool((plan.writes_separated and plan.span_read) or plan.closed_use)
 
@@ -681,7 +688,7 @@ def _run_case(ctx, case, tmpdir):
         return fail(None, "executor %s while finishing the case" % _short(obs[-1], 300))
     for o in obs:
         if o.startswith("HARNESS-BUG"):
-                raise HarnessBug("ex_file: %s (case %s)" % (o, [s.line for s in steps]))
+            raise HarnessBug("ex_file: %s (case %s)" % (o, [s.line for s in steps]))
     if len(obs) < len(steps):
         raise HarnessBug("short answer from ex_file: %d lines for %d ops" % (len(obs), len(steps)))
 
